@@ -151,6 +151,10 @@ def _execute(prog, plan=None, rnd=None, switch_prob=0.0, files=None, pct=None):
         steps = [('at', 1.0), ('raw', F(1, _zp.compress(b'server says hello hello hello', 'bfinal'), rsv=4) + F(1, _zp.compress(b'and again hello', 'bfinal'), rsv=4))]
     elif loop == 'server-close-reply':
         steps = [('at', 1.0), ('raw', F(8, refws.close_payload(1000, 'reply')))]
+    elif loop == 'server-eof':
+        steps = [('at', 1.0), ('eof',)]
+    elif loop == 'server-text-eof':
+        steps = [('at', 1.0), ('raw', F(1, b'last words')), ('eof',)]
     elif loop == 'server-ping-close':
         steps = [('at', 1.0), ('raw', F(9, b'srv-ping') + F(8, refws.close_payload(1000, 'srv')))]
     factory = H.hs_server(steps, hs)
